@@ -36,6 +36,18 @@ class CustomBase(BaseException):
     pass
 
 
+class TimeoutSubclass(TimeoutError):
+    pass
+
+
+class CancelledFutureSubclass(__import__("concurrent.futures").futures.CancelledError):
+    pass
+
+
+class InvalidStateSubclass(asyncio.InvalidStateError):
+    pass
+
+
 class ReprRaises(Exception):
     def __repr__(self):
         return "<ReprRaises>"
@@ -81,6 +93,9 @@ EXC_POOL = {
     "TrioClosedResource": lambda: trio.ClosedResourceError("closed"),
     "TrioTooSlow": lambda: trio.TooSlowError(),
     "Warning": lambda: UserWarning("warn"),
+    "TimeoutSubclass": lambda: TimeoutSubclass("late"),
+    "CancelledFutureSubclass": lambda: CancelledFutureSubclass(),
+    "InvalidStateSubclass": lambda: InvalidStateSubclass("state"),
 }
 BASE_POOL = {
     "SystemExit": lambda: SystemExit(3),
@@ -306,6 +321,12 @@ class World:
                     return w.finish(spec)
                 except asyncio.CancelledError:
                     w.ev(pid, "cancelled", exc="asyncio.CancelledError")
+                    # a stubborn payload keeps awaiting in its cancellation handler; each further cancel ends one wait
+                    for _ in range(spec.get("stubborn", 0)):
+                        try:
+                            await asyncio.sleep(3600)
+                        except asyncio.CancelledError:
+                            w.ev(pid, "cancelled-again")
                     raise
                 finally:
                     w.ev(pid, "cleanup-begin")
